@@ -41,31 +41,33 @@ begin
   resetable_bitvector <= buffer_resetable_bitvector;
   
 
-  proc: process(clk)
+  proc: process(clk, reset)
     variable temp : boolean;
-    variable temp1 : unsigned(2 downto 0);
+    variable temp1 : boolean;
     variable temp2 : unsigned(2 downto 0);
+    variable temp3 : unsigned(2 downto 0);
   begin
-    if rising_edge(clk) then
-      temp := reset = '1';
-      if temp then
-        s_proc <= state_0;
-        cnt <= unsigned'("011");
-        buffer_resetable_bit <= '0';
-        buffer_resetable_bitvector <= "000";
-      else
+    temp := reset = '1';
+    temp1 := not (temp);
+    if temp1 then
+      s_proc <= state_0;
+      cnt <= unsigned'("011");
+      buffer_resetable_bit <= '0';
+      buffer_resetable_bitvector <= "000";
+    else
+      if rising_edge(clk) then
         case s_proc is
           when state_0 =>
             s_proc <= state_1;
-            temp1 := (cnt) + (1);
-            cnt <= temp1;
+            temp2 := (cnt) + (1);
+            cnt <= temp2;
           when state_1 =>
             if step = '1' then
               s_proc <= state_2;
               buffer_out_bit <= cnt(1);
               buffer_resetable_bit <= cnt(1);
-              temp2 := (cnt) + (1);
-              cnt <= temp2;
+              temp3 := (cnt) + (1);
+              cnt <= temp3;
             end if;
           when state_2 =>
             if step = '1' then
